@@ -6,7 +6,7 @@
    track / validate / expire / markActive / time passing / the real sweep.  A registration that is
    received AGAIN (the duplicate branches of TrackIfNotExists, track, register) is an operation of these
    histories like any other. *)
-From CJ Require Import Common.Base C02.Model C02.ModelTime C02.ProofsTime.
+From CJ Require Import Common.Base C02.Model C02.ModelTime C02.ProofsTime C02.RunConn C02.RunTime.
 
 (* receiving a tracked registration again (Track of a tracked key; Validate by the stored, already valid
    object) changes nothing: neither the registry nor any timeout record (age, used) *)
@@ -53,3 +53,11 @@ Theorem C02_swept_within_original_lifetime :
   forall s t, In t (snd (tstep s TSweep)) -> rec_within t = true.
 Proof. exact sweep_within. Qed.
 Print Assumptions C02_swept_within_original_lifetime.
+
+(* connection lane: the registry operations of a flattened recorded history (what RunConn.v replays the real
+   handleNewTCPConn against) are those of the timed model run on the history's timed operations - what a sweep
+   removes in the replay is decided by the model's own records *)
+Theorem C02_conn_timed_replay_registry :
+  forall evs, xreg_ops (flat_x evs) = flat (tops_of evs).
+Proof. exact flat_x_ops. Qed.
+Print Assumptions C02_conn_timed_replay_registry.
